@@ -83,6 +83,11 @@ def run(ctx: Context) -> None:
     # dataset (first match in variable order), not of set iteration order, or the key of one dataset differs between processes
     from . import c11 as _c11
     _share(ctx, _c11, {'R11.3'}, 'R16.5')
+    # the key of a dataset must not depend on what was asked of it before: deriving polygons or bounds from the geometry variables works on
+    # copies (the blanking of centres without neighbours writes NaN into an array - it must not be the dataset's own)
+    ctx.rule('R16.7', "deriving geometry does not write into the geometry variables: the arrays that are blanked while cell bounds are made are fresh copies (fact shared with C06 R06.3)", floor=1)
+    from . import c06 as _c06
+    _share(ctx, _c06, {'R06.3'}, 'R16.7', only=lambda ob: 'a fresh array' in ob.text)
     from .common import adopt_foundations as _adopt
     _adopt(ctx, 'R16.6', ['topology', 'order'], floor=60)
     ctx.assume("hashlib digests and numpy tobytes('C') are deterministic functions of their input bytes")
